@@ -270,6 +270,7 @@ func c34(r *core.Run) {
 	r.Floor("R8.constkeys", 5)
 	removeAbsentIsNoop(r, "R9.removeabsent")
 	r.Floor("R9.removeabsent", 2)
+	vmRegistrationRows(r, "R10.registrations", nil)
 }
 
 // c34Natives: R3 — for every sema.*FunctionName constant bound in both engines, the VM registers the same
@@ -653,4 +654,88 @@ func posOr(ps ...token.Pos) token.Pos {
 		}
 	}
 	return token.NoPos
+}
+
+// vmRegistrationRows: every built-in registered with the VM names one member only — in NewNativeFunctionValue(name, type, native)
+// the sema.…FunctionName constant, the sema.…FunctionType and the interpreter.Native…Function implementation carry the same
+// member tag (Account_StorageTypeCopy… / AccountStorageCopy…). Rows that disagree on the reviewed tree (shared
+// implementations) are a recorded baseline; a new disagreement (copy registered with the implementation of load) is reported.
+func vmRegistrationRows(r *core.Run, rule string, scope func(tag string) bool) {
+	w := r.W
+	norm := func(s string) string {
+		s = strings.TrimSuffix(strings.TrimSuffix(s, "FunctionName"), "FunctionType")
+		s = strings.TrimPrefix(s, "Native")
+		s = strings.TrimSuffix(s, "Function")
+		s = strings.ReplaceAll(s, "_", "")
+		s = strings.ReplaceAll(s, "Type", "")
+		return strings.ToLower(s)
+	}
+	got := map[string]int{}
+	n := 0
+	for _, rel := range []string{"bbq/vm"} {
+		p := w.Pkg(rel)
+		if p == nil {
+			continue
+		}
+		for _, f := range p.Syntax {
+			ast.Inspect(f, func(nd ast.Node) bool {
+				call, ok := nd.(*ast.CallExpr)
+				if !ok || len(call.Args) != 3 {
+					return true
+				}
+				id, ok := call.Fun.(*ast.Ident)
+				if !ok || id.Name != "NewNativeFunctionValue" {
+					return true
+				}
+				leaf := func(e ast.Expr) string {
+					for {
+						switch x := e.(type) {
+						case *ast.SelectorExpr:
+							return x.Sel.Name
+						case *ast.Ident:
+							return x.Name
+						case *ast.CallExpr:
+							e = x.Fun
+						default:
+							return ""
+						}
+					}
+				}
+				nameC, typeC, nat := leaf(call.Args[0]), leaf(call.Args[1]), leaf(call.Args[2])
+				if !strings.HasSuffix(nameC, "FunctionName") || !strings.HasPrefix(nat, "Native") {
+					return true
+				}
+				tag := norm(nameC)
+				if scope != nil && !scope(tag) {
+					return true
+				}
+				n++
+				ok2 := norm(nat) == tag && (!strings.HasSuffix(typeC, "FunctionType") || norm(typeC) == tag)
+				if !ok2 {
+					got[nameC+" / "+typeC+" / "+nat]++
+				}
+				return true
+			})
+		}
+	}
+	table := "c34_vm_registration_mismatches"
+	if genMode() {
+		if scope == nil {
+			genJSON(r, table, got)
+		}
+		return
+	}
+	var base map[string]int
+	if !r.Table(table, &base) {
+		return
+	}
+	for _, k := range sortedKeys(got) {
+		if got[k] <= base[k] {
+			r.OK(rule, "bbq/vm registration "+k, 0, "names differ on the reviewed tree as well (shared implementation; recorded)")
+		} else {
+			r.Bad(rule, "bbq/vm registration "+k, 0, "a built-in is registered with the VM under one member's name and type but another member's implementation: the compiled engine runs a different function than the interpreter for this member")
+		}
+	}
+	r.OK(rule, "bbq/vm registrations", 0, itoa(n)+" registrations examined")
+	r.Floor(rule, 1)
 }
